@@ -194,8 +194,10 @@ def _build(case):
     H, W, wrap = case["H"], case["W"], bool(case["wrap_around"])
     mask = G.build_mask(H, W, case["mask"], wrap)
     a, b = G.edge_list(H, W, mask, wrap)
-    truth = G.build_field(H, W, case["field"], a, b)
     labels, ncomp = G.components(H, W, mask, wrap)
+    truth = G.build_field(H, W, case["field"], a, b, labels >= 0)
+    if not (np.all(np.isfinite(truth)) and np.max(np.abs(truth)) <= G.MAX_ABS_PHASE + 4):
+        raise AssertionError("harness: generated field out of range")  # harness error, never a violation
     wrapped = G.wrap(truth)
     k = np.rint((truth - wrapped) / TWO_PI).astype(np.int64)
     inm = labels >= 0
